@@ -263,7 +263,7 @@ fn dispatch_worker(file_q: cbc::Receiver<Operation>, stats: &Arc<dyn StatusUpdat
 
             Operation::Special(from, to) => {
                 info!("Dispatch[{:?}]: Special file {:?} -> {:?}", thread::current().id(), from, to);
-                if to.exists() {
+                if to.try_exists()? {
                     if config.no_clobber {
                         return Err(XcpError::DestinationExists("Destination file exists and --no-clobber is set.", to).into());
                     }
